@@ -15,15 +15,18 @@ from . import common, lib_db
 from .common import parallel_map
 from .lib_dbref import Ref, dangling_tags, duplicate_keys, frame_breaks, fallbacks
 
-RULE = ("cases = histories of 5-40 commands (declare with/without directory, tag, stack, table=none, force; "
-        "redeclaration with another directory; undeclare with/without version, tag-only, version-and-tag; direct "
-        "assignTag / unassignTag; ~8% dry runs) over 3 products x 3 versions x 2 flavors (Linux native, generic "
-        "fallback, sharing version files) x 2 stacks x 3 global tags, some product directories missing; every "
-        "command is a fresh forked child; a history is non-trivial when at least 3 of its commands change the "
-        "database and at least one is refused or finds nothing; distinct = distinct history digests")
+RULE = ("cases = histories of 5-40 commands (declare with/without directory, tag, stack, table=none, force, external "
+        "files; redeclaration with another directory; undeclare with/without version, tag-only, version-and-tag, with "
+        "the product set up in the environment; remove; direct assignTag / unassignTag; ~8% dry runs) over 3 "
+        "products x 3 versions x 2 flavors (Linux native, generic fallback, sharing version files) x 2 stacks x 3 "
+        "global tags, some product directories missing; every command is a fresh forked child; a history is "
+        "non-trivial when at least 3 of its commands change the database and at least one is refused or finds "
+        "nothing; distinct = distinct history digests; thorough tier: also every history of length 2 over a "
+        "36-command alphabet")
 TRUSTED = ["fork-per-command runner, audit-log mtime normaliser and the Database-only reader of harness/lib_db.py",
            "version names are single-component (the model orders listings by string order; C10 owns version order)",
-           "all stacks writable, no product set up in the environment, global tags only (user tags not modelled)"]
+           "all stacks writable, global tags only (user tags not modelled), tablefile None or \"none\" (interned tables not "
+           "generated)"]
 ASSUMPTIONS = ["a tag (tag, product, flavor) is one designation on the whole EUPS_PATH (DESIGN 6 C06, reading)",
                "table files are compared by identity of their path class (default `ups/<name>.table` or `none`)"]
 
